@@ -6,6 +6,12 @@ import Gama.Lemmas.MemRepRefine
 import Gama.Lemmas.MatInvertPerm
 import Gama.Lemmas.MatVecAlg
 import Gama.Lemmas.SymChol
+import Gama.Lemmas.DimChecks
+import Gama.Gen.DimChecks
+import Gama.Lemmas.PinvMP
+import Gama.Lemmas.MatInvertGJ
+import Gama.Lemmas.SymInvert
+import Gama.Lemmas.SymCholPSD
 namespace Gama.Props.C15
 open Gama Gama.MemRep Gama.MatVec
 
@@ -193,6 +199,50 @@ theorem sum_badRank_iff {K : Type} [Add K] [Inhabited K] (A B : Mat K) (hA : A.W
 
 example : matMul (⟨2, 3, #[1, 2, 3, 4, 5, 6]⟩ : Mat Int) ⟨2, 1, #[1, 0]⟩ = .error .badRank := by decide
 
+
+/-! ## (A) Dimension guards, for EVERY operator: the table regenerated from lib/matvec/*.h
+
+    `Gen/DimChecks.lean` is rewritten on every run by `tools/gen/c15_dimchecks.py` from mat.h, vec.h,
+    vecbase.h, symmat.h, matvecbase.h, matbase.h, transmat.h, transvec.h: per operator the effective
+    guard (own `if (…) throw BadRank` plus the guard of the `MatVecBase::add/sub/mul` / `VecBase::dot`
+    it delegates to).  `Model/DimCheck.lean` says what `rows() cols() dim() size()` return and what the
+    loops after the guard rely on. -/
+
+/-- **Every guard implies conformity in SHAPE, for all shapes.**  For every operator of the table
+    except `operator*(Vec,TransMat)` (known finding, next theorem): whatever the reported dimensions
+    of the operands (subject to the class invariants Vec n×1, TransVec 1×n, SymMat n×n), if the guard
+    does not throw `BadRank` then sums/differences/`dot` have operands of the same shape (rows AND
+    columns, not only the same element count), products have matching inner dimensions,
+    `invert`/`Lower`/`Upper` get a square matrix and the storage primitives equally long storage.
+    A removed or weakened guard (e.g. the member `Mat::operator+` relying on `MatVecBase::add`, which
+    compares `size()` only) makes the `decide` fail. -/
+theorem guards_conforming :
+    ∀ e ∈ Gen.DimChecks.table, ["operator*(Vec,TransMat)"].contains e.name = false →
+      ∀ (sa sb : DimCheck.Shape) (nr : Nat), DimCheck.WF e.ka sa = true → DimCheck.WF e.kb sb = true →
+        DimCheck.guardFires e sa sb nr = false → DimCheck.conforming e.cls e.ka e.kb sa sb nr :=
+  fun e he hs sa sb nr ha hb hg =>
+    DimCheck.table_sound Gen.DimChecks.table ["operator*(Vec,TransMat)"] (by decide) e he hs sa sb nr ha hb hg
+
+/-- `operator*(const Vec&, const TransMat&)` tests `A.rows() != b.dim()`: a 2-vector and a 2×3 view
+    pass the guard although an n×1 times r×c product needs r = 1 (known finding C15-vec-transmat;
+    the same operands make the loops read outside `A`, theorem `vec_transmat_violates`) -/
+theorem guards_vec_transmat_violates :
+    (DimCheck.find? Gen.DimChecks.table "operator*(Vec,TransMat)").any (fun e =>
+      !DimCheck.covers e && DimCheck.WF e.ka ⟨2, 1⟩ && DimCheck.WF e.kb ⟨2, 3⟩ &&
+      !DimCheck.guardFires e ⟨2, 1⟩ ⟨2, 3⟩ 0 &&
+      !decide (DimCheck.conforming e.cls e.ka e.kb ⟨2, 1⟩ ⟨2, 3⟩ 0)) = true := by
+  decide
+
+-- non-vacuity: the member `Mat::operator+` — 2×3 + 2×3 passes its guard, 2×3 + 3×2 (same element
+-- count) does not; with only the delegate's `size()` atoms it would pass and the check `covers` fails
+example : (DimCheck.find? Gen.DimChecks.table "Mat::operator+(Mat)").any (fun e =>
+    e.via == "MatVecBase::add" &&
+    !DimCheck.guardFires e ⟨2, 3⟩ ⟨2, 3⟩ 6 && DimCheck.guardFires e ⟨2, 3⟩ ⟨3, 2⟩ 6 &&
+    !DimCheck.guardFires { e with guard := e.guard.drop e.own } ⟨2, 3⟩ ⟨3, 2⟩ 6 &&
+    DimCheck.covers e && !DimCheck.covers { e with guard := e.guard.drop e.own }) = true := by
+  decide
+example : Gen.DimChecks.table.length = 52 := by decide
+
 /-! ## Operators of the TransMat / TransVec family
     The models of `TransMat ± TransMat`, `TransMat * TransMat`, `TransVec * MatBase` are those of the
     code with the proposed one-line fixes (notes/proposed/C15-transmat-ctor-dims, -transmat-transmat-stride,
@@ -255,6 +305,90 @@ theorem undo_permutation {α : Type} (N : Nat) (indr indc : Nat → Nat) (m : Na
 example : (List.range 9).map (undoPermutation 3 (fun i => (i + 1) % 3) (fun i => (i + 2) % 3) id)
     = [7, 8, 6, 1, 2, 0, 4, 5, 3] := by decide
 
+
+
+/-! ## (B) `Mat::invert`: Gauss–Jordan with full pivoting returns the inverse -/
+
+section
+variable {K : Type} [Field K] [LinearOrder K] [IsStrictOrderedRing K]
+
+/-- **`inv(A)·A = I` and `A·inv(A) = I`, every size.**  The model of `Mat::invert(tol)` — pivot search
+    over the not yet used rows/columns with the persisting `p_row/p_col`, `|pivot| ≤ tol → Singular`,
+    the implicit permutations `indr/indc`, in-place scaling and elimination, then `invr/invc`,
+    `perm/inv_perm` and the two cycle-following swap loops — over any ordered field: if it does not
+    throw (with `tol ≥ 0` this means no pivot was zero) the returned storage is a two-sided inverse
+    of the input.  (Proof: invariant `GJInv` — after `k` steps the working matrix holds, in the pivot
+    columns, the columns of the accumulated row operation `E` and elsewhere `E·A`, with
+    `E·A` = unit vectors on the pivot columns — then `undo_permutation`.) -/
+theorem invert_correct (sq : K → K) (N : Nat) (tol : K) (htol : 0 ≤ tol) (A X : Nat → K)
+    (h : @invert K (fieldScalar K sq) N N tol A = .ok X) :
+    toM N X * toM N A = 1 ∧ toM N A * toM N X = 1 :=
+  invert_correct_matrix sq N tol htol A X h
+
+/-- the same entry by entry on the row-major storage -/
+theorem invert_correct_entries (sq : K → K) (N : Nat) (tol : K) (htol : 0 ≤ tol) (A X : Nat → K)
+    (h : @invert K (fieldScalar K sq) N N tol A = .ok X) :
+    (∀ a j, a < N → j < N → ∑ b ∈ Finset.range N, X (a * N + b) * A (b * N + j) = if a = j then 1 else 0) ∧
+    (∀ a j, a < N → j < N → ∑ b ∈ Finset.range N, A (a * N + b) * X (b * N + j) = if a = j then 1 else 0) :=
+  Gama.MatVec.invert_correct sq N tol htol A X h
+
+/-- the loop invariant itself: after `k ≤ N` elimination steps from `A` there is a matrix `E` (the
+    accumulated row operations) with `(E·A)(·, indc s) = e_{indr s}` and `m(·, indc s) = E(·, indr s)`
+    for the `s < k` pivots, `E(·, indr t) = e_{indr t}` and `m(·, indc t) = (E·A)(·, indc t)` for `t ≥ k` -/
+theorem invert_invariant (sq : K → K) (N : Nat) (tol : K) (htol : 0 ≤ tol) (A : Nat → K) (k : Nat) (hk : k ≤ N)
+    (g : GJ K) (h : @gjEliminate K (fieldScalar K sq) N tol k ⟨A, id, id, 0, 0⟩ = some g) :
+    ∃ E, GJInv N A k g.m g.indr g.indc E :=
+  gj_invariant sq N tol htol A k hk g h
+
+end
+
+/-- non-square ⇒ `BadRank` before anything is touched -/
+theorem invert_badRank {K : Type} [Scalar K] (rows cols : Nat) (tol : K) (A : Nat → K) (h : rows ≠ cols) :
+    invert rows cols tol A = .error .badRank := Gama.MatVec.invert_badRank rows cols tol A h
+
+-- non-vacuity: [[0,2],[1,0]] needs a pivot exchange (rows and columns); inverse [[0,1],[1/2,0]]
+example : ∃ X, @invert ℚ (fieldScalar ℚ id) 2 2 0 gjAEx = .ok X ∧ X 0 = 0 ∧ X 1 = 1 ∧ X 2 = 1 / 2 ∧ X 3 = 0 :=
+  invert_example
+
+/-! ## (B) `pinv`: the four Moore–Penrose conditions from an SVD certificate -/
+
+section
+variable {K : Type} [Field K] [LinearOrder K]
+open Matrix
+
+/-- `pinv.h` computes `V · diag(W_inv) · Uᵀ` with `W_inv(k) = lindep(k) ? 0 : 1/W(k)` (`set_inv_W`:
+    `lindep(k)` iff `|W(k)| ≤ W_tol · max W`).  Given a certificate for the decomposition the SVD
+    returned — `A = U diag(W) Vᵀ`, `VᵀV = 1`, `UᵀU = 1` on the columns that are kept, and every dropped
+    singular value an exact zero — the model's result `X` satisfies `AXA = A`, `XAX = X`,
+    `(AX)ᵀ = AX`, `(XA)ᵀ = XA`.  `A` is M×N with NO relation between M and N (tall, square, wide).
+    The certificate is evaluated per run on the `U, W, V` the C++ `SVD` produced (tools/props/c15.py). -/
+theorem pinv_moore_penrose (sq : K → K) (M N : Nat) (tol : K) (A U W V : Nat → K)
+    (hA : rowMajor M N A = rowMajor M N U * diagonal (vecOf N W) * (rowMajor N N V)ᵀ)
+    (hV : (rowMajor N N V)ᵀ * rowMajor N N V = 1)
+    (hU : ∀ k l : Fin N,
+        @pinvWinv K (fieldScalar K sq) N tol W k.val ≠ 0 →
+        @pinvWinv K (fieldScalar K sq) N tol W l.val ≠ 0 →
+        ((rowMajor M N U)ᵀ * rowMajor M N U) k l = if k = l then 1 else 0)
+    (h0 : ∀ k : Fin N, @pinvWinv K (fieldScalar K sq) N tol W k.val = 0 → W k.val = 0) :
+    let 𝔸 : Matrix (Fin M) (Fin N) K := rowMajor M N A
+    let 𝕏 : Matrix (Fin N) (Fin M) K := rowMajor N M (@pinvFrom K (fieldScalar K sq) M N tol U W V)
+    𝔸 * 𝕏 * 𝔸 = 𝔸 ∧ 𝕏 * 𝔸 * 𝕏 = 𝕏 ∧ (𝔸 * 𝕏)ᵀ = 𝔸 * 𝕏 ∧ (𝕏 * 𝔸)ᵀ = 𝕏 * 𝔸 :=
+  Gama.MatVec.pinv_moore_penrose sq M N tol A U W V hA hV hU h0
+
+/-- which singular values `set_inv_W` keeps: `W_inv(k) = 1/W(k)` iff `W_tol · max(0, W) < |W(k)|` -/
+theorem pinv_kept_iff [IsStrictOrderedRing K] (sq : K → K) (N : Nat) (tol : K) (W : Nat → K) (k : Nat) :
+    @pinvWinv K (fieldScalar K sq) N tol W k = if tol * pinvVmax N W < |W k| then (W k)⁻¹ else 0 :=
+  pinvWinv_eq_abs sq N tol W k
+
+end
+
+-- non-vacuity: a WIDE rank-1 matrix A = [3 4] = [1 0] · diag(5, 0) · [[3/5, -4/5], [4/5, 3/5]]ᵀ; the second
+-- column of U is null, so only the kept block of UᵀU is the identity; pinv A = [3/25, 4/25]ᵀ
+example : (rowMajor 1 2 pinvExA = rowMajor 1 2 pinvExU * Matrix.diagonal (vecOf 2 pinvExW) * (rowMajor 2 2 pinvExV).transpose) ∧
+    @pinvFrom ℚ (fieldScalar ℚ id) 1 2 (1/1000) pinvExU pinvExW pinvExV 0 = 3/25 ∧
+    @pinvFrom ℚ (fieldScalar ℚ id) 1 2 (1/1000) pinvExU pinvExW pinvExV 1 = 4/25 :=
+  ⟨pinvEx_hA, pinvEx_value.1, pinvEx_value.2⟩
+
 /-! ## (A) `SymMat::cholDec` / `solve` -/
 
 section
@@ -278,19 +412,80 @@ theorem symchol_solve (sq : K → K) (hsq : ∀ x, 0 ≤ x → sq x * sq x = x) 
       ∑ j ∈ Finset.range n, symEntry s i (j + 1) * @cholSolve K (fieldScalar K sq) n L b j = b (i - 1) :=
   cholDec_cholSolve_spec sq hsq tol htol n s L b h
 
-/-- full statement not proved (general nullity): for a positive semi-definite `A` and
-    `cholDec = .ok (L, d)` with `d > 0`, `L Lᵀ = A` still holds when every zeroed pivot is an exact
-    zero (the Schur column vanishes).  Missing: the PSD ⇒ zero-column argument on the in-place
-    loop.  Proved instead: the nullity-0 case above. -/
-theorem symchol_partial (sq : K → K) (hsq : ∀ x, 0 ≤ x → sq x * sq x = x) (tol : K) (htol : 0 ≤ tol)
-    (n : Nat) (s L : Nat → K) (h : @cholDec K (fieldScalar K sq) n tol s = .ok (L, 0)) :
-    ∀ i, 1 ≤ i → i ≤ n → 0 < L (tri i i) * L (tri i i) := by
-  intro i h1 h2
-  exact (cholDec_spec sq hsq tol htol n s L h i i h1 (Nat.le_refl i) h2).2.1
+/-- **any nullity.**  `cholDec` not rejected, with whatever nullity `d` it reports: the returned
+    packed `L` obeys the recurrences of the code — off the diagonal `L(i,j) = x/L(j,j)` or `0` when the
+    pivot `L(j,j)` was zeroed, on the diagonal `L(i,i) = sqrt x` when `x > a(i,i)·tol` (and then
+    `x ≥ 0`, else `BadRank` was thrown) and `0` otherwise, `x = a(i,j) − Σ_{k<j} L(i,k)L(j,k)` — and `d`
+    is exactly the number of pivots that were zeroed -/
+theorem symchol_recurrence (sq : K → K) (tol : K) (n : Nat) (s L : Nat → K) (d : Nat)
+    (h : @cholDec K (fieldScalar K sq) n tol s = .ok (L, d)) :
+    (∀ i j, 1 ≤ j → j ≤ i → i ≤ n →
+      (i ≠ j → L (tri i j) = if L (tri j j) = 0 then 0 else cholX s L i j / L (tri j j)) ∧
+      (i = j → (if s (tri i i) * tol < cholX s L i i
+          then (¬ cholX s L i i < 0 ∧ L (tri i i) = sq (cholX s L i i))
+          else L (tri i i) = 0))) ∧
+    d = ∑ i ∈ Finset.range n, (if s (tri (i + 1) (i + 1)) * tol < cholX s L (i + 1) (i + 1) then 0 else 1) :=
+  ⟨cholDec_recurrence sq tol n s L d h, cholDec_nullity sq tol n s L d h⟩
+
+/-- **positive SEMI-definite input, nullity > 0.**  If the symmetric matrix stored in `s` is positive
+    semi-definite and every pivot that `cholDec` zeroes is an exact zero (with a tolerance-dropped
+    positive pivot `L Lᵀ ≠ A`, so this hypothesis is what the exact statement needs), then
+    `L Lᵀ = A` on the lower triangle for ANY reported nullity: the Schur column under a zero pivot
+    vanishes (2×2 minors of the positive semi-definite residual), by induction over the columns. -/
+theorem symchol_psd (sq : K → K) (hsq : ∀ x, 0 ≤ x → sq x * sq x = x) (tol : K)
+    (n : Nat) (s L : Nat → K) (d : Nat)
+    (h : @cholDec K (fieldScalar K sq) n tol s = .ok (L, d))
+    (hpsd : ∀ v : ℕ → K, 0 ≤ ∑ r ∈ Finset.Icc 1 n, ∑ c ∈ Finset.Icc 1 n, v r * symEntry s r c * v c)
+    (hz : ∀ i, 1 ≤ i → i ≤ n → ¬ (s (tri i i) * tol < cholX s L i i) → cholX s L i i = 0) :
+    ∀ i j, 1 ≤ j → j ≤ i → i ≤ n →
+      ∑ k ∈ Finset.range j, L (tri i (k + 1)) * L (tri j (k + 1)) = s (tri i j) :=
+  cholDec_psd_spec sq hsq tol n s L d h hpsd hz
+
+/-- and then the reported nullity is the number of zero diagonal entries of `L` -/
+theorem symchol_nullity (sq : K → K) (hsq : ∀ x, 0 ≤ x → sq x * sq x = x) (tol : K) (htol : 0 ≤ tol)
+    (n : Nat) (s L : Nat → K) (d : Nat)
+    (h : @cholDec K (fieldScalar K sq) n tol s = .ok (L, d))
+    (hpsd : ∀ v : ℕ → K, 0 ≤ ∑ r ∈ Finset.Icc 1 n, ∑ c ∈ Finset.Icc 1 n, v r * symEntry s r c * v c) :
+    d = ((Finset.range n).filter (fun i => L (tri (i + 1) (i + 1)) = 0)).card :=
+  nullity_counts sq hsq tol htol n s L d h hpsd
+
+/-! ## (B) `SymMat::invert` -/
+
+/-- `SymMat::invert()` (n exchange steps on the pivot (1,1) of the packed storage with cyclic
+    renumbering; sign convention `w(i) = ∓q/p`) returns the inverse, on both sides, provided no pivot
+    `a[1]` met on the way is zero (the code only rejects `p < 0`).
+    FULL statement not proved: "for a positive definite input every pivot is positive, so `invert` does
+    not throw and returns the inverse".  Missing: positive definite ⇒ each pivot (the (1,1) entry of the
+    current Schur complement) is `> 0`; the pivot hypothesis below stands for it.  `symInvertState n a t`
+    is the model's state after `t` outer iterations (`symInvert1_eq_state`, by `rfl`-unfolding). -/
+theorem syminvert_partial (sq : K → K) (n : Nat) (hn : 2 ≤ n) (s r : Nat → K)
+    (hpiv : ∀ t, t < n → ∀ st, symInvertState n (fun k => s (k - 1)) t = .ok st → st.a 1 ≠ 0)
+    (h : @symInvert K (fieldScalar K sq) n s = .ok r) :
+    (∀ i j, 1 ≤ i → i ≤ n → 1 ≤ j → j ≤ n →
+      ∑ c ∈ Finset.range n, symEntry r i (c + 1) * symEntry s (c + 1) j = if i = j then 1 else 0) ∧
+    (∀ i j, 1 ≤ i → i ≤ n → 1 ≤ j → j ≤ n →
+      ∑ c ∈ Finset.range n, symEntry s i (c + 1) * symEntry r (c + 1) j = if i = j then 1 else 0) :=
+  symInvert_correct sq n hn s r hpiv h
+
+/-- dimension 1 (`a[1] = 1/a[1]`) -/
+theorem syminvert_one (sq : K → K) (s r : Nat → K) (h0 : s 0 ≠ 0)
+    (h : @symInvert K (fieldScalar K sq) 1 s = .ok r) : r 0 = 1 / s 0 ∧ r 0 * s 0 = 1 ∧ s 0 * r 0 = 1 :=
+  symInvert_correct_one sq s r h0 h
 
 end
 
 example : ∃ L, @cholDec ℚ (fieldScalar ℚ sqEx) 2 (1 / 100000000) sEx = .ok (L, 0) ∧
     L 0 = 2 ∧ L 1 = 1 ∧ L 2 = 1 := cholDec_example
+
+-- non-vacuity, nullity 1: A = [[1,1],[1,1]] is positive semi-definite of rank 1; L = [[1,0],[1,0]]; both
+-- hypotheses of `symchol_psd` hold for it
+example : (∃ L, @cholDec ℚ (fieldScalar ℚ sqEx1) 2 (1 / 100000000) sEx1 = .ok (L, 1) ∧ L 0 = 1 ∧ L 1 = 1 ∧ L 2 = 0) ∧
+    (∀ v : ℕ → ℚ, 0 ≤ ∑ r ∈ Finset.Icc 1 2, ∑ c ∈ Finset.Icc 1 2, v r * symEntry sEx1 r c * v c) :=
+  ⟨cholDec_psd_example, cholDec_psd_example_hyps.1⟩
+
+-- non-vacuity: inverse of [[4,2],[2,2]] is [[1/2,-1/2],[-1/2,1]]; its pivots are 4 and 1
+example : (∃ X, @symInvert ℚ (fieldScalar ℚ id) 2 sinvAEx = .ok X ∧ X 0 = 1 / 2 ∧ X 1 = -1 / 2 ∧ X 2 = 1) ∧
+    (∀ t, t < 2 → ∀ st, symInvertState 2 (fun k => sinvAEx (k - 1)) t = .ok st → st.a 1 ≠ 0) :=
+  ⟨symInvert_example, symInvert_example_pivots⟩
 
 end Gama.Props.C15
